@@ -85,7 +85,8 @@ func (eth *Ethernet) SerializeTo(b gopacket.SerializeBuffer, opts gopacket.Seria
 		}
 		if eth.EthernetType != EthernetTypeLLC {
 			return fmt.Errorf("ethernet type %v not compatible with length value %v", eth.EthernetType, eth.Length)
-		} else if eth.Length > 0x0600 {
+		} else if eth.Length >= 0x0600 {
+			// values from 0x0600 on are read back as an EthernetType, not as a length
 			return fmt.Errorf("invalid ethernet length %v", eth.Length)
 		}
 		binary.BigEndian.PutUint16(bytes[12:], eth.Length)
